@@ -64,6 +64,10 @@ func (e *fnEnc) libCall(v ssa.Value, fn *ssa.Function, c *ssa.CallCommon, args [
 			// the result is a function of the two strings (contracts can name it: strIndex(s, sep))
 			e.vc.def(sEq(n, fmt.Sprintf("(strindex %s %s)", args[0], args[1])))
 		}
+		if name == "strings.LastIndex" {
+			// likewise strLastIndex(s, sep): a different function of the two strings (last, not first, occurrence)
+			e.vc.def(sEq(n, fmt.Sprintf("(strlastindex %s %s)", args[0], args[1])))
+		}
 		e.vc.assume(fmt.Sprintf("(and (>= %s (- 1)) (or (= %s (- 1)) (<= (+ %s %s) (s-len %s))))", n, n, n,
 			map[bool]string{true: fmt.Sprintf("(s-len %s)", args[1]), false: "1"}[!strings.HasSuffix(name, "Any")], args[0]))
 		if l, ok := lit(1); ok && strings.HasSuffix(name, "Any") && len(l) >= 1 && len(l) <= 8 && isASCII(l) {
